@@ -7,7 +7,7 @@ import random
 
 from vmon import core, inventory, mutate, pipeline
 
-BUDGET = {'quick': 160, 'thorough': 5000}
+BUDGET = {'quick': 160, 'thorough': 16000}
 
 TARGETED = [
     # (class, hex) - shapes named in the statement / found by reading the code
